@@ -376,7 +376,18 @@ fn mutate_bytes(r: &mut Rng, b: &[u8]) -> Vec<u8> {
     if v.is_empty() {
         return v;
     }
-    match r.below(6) {
+    match r.below(9) {
+        6..=8 => {
+            // a character of an embedded name (a letter between letters) becomes a name separator
+            // or another name character: lengths stay valid, only the *name* changes
+            let letters: Vec<usize> = (1..v.len().saturating_sub(1))
+                .filter(|&i| v[i].is_ascii_lowercase() && v[i - 1].is_ascii_lowercase() && v[i + 1].is_ascii_lowercase())
+                .collect();
+            if !letters.is_empty() {
+                let i = letters[r.below(letters.len())];
+                v[i] = *r.pick(&[b':', b'/', b'@', b'-', b'.', b'%', b'A', b'0', b'_', b'#', b'+']);
+            }
+        }
         0 => {
             let n = r.below(v.len());
             v.truncate(n);
